@@ -11,7 +11,7 @@ RULE = ("quick: every RGB colour on a 17^3 grid + all channel-edge combinations 
 ASSUMPTIONS = ["STANDARD_PALETTE / WINDOWS_PALETTE contents are data (the 16 target entries); the 8-bit "
                "palette is cross-checked against docs/source/appendix/colors.rst and the xterm definition",
                "the metric is Rich's weighted-RGB 'redmean' formula, re-coded independently"]
-REQUIRED = ["mon.downgrade", "mon.idempotent", "mon.argmin", "mon.ansi_codes", "mon.grey", "mon.palette_row"]
+REQUIRED = ["mon.constructor_route", "mon.downgrade", "mon.idempotent", "mon.argmin", "mon.ansi_codes", "mon.grey", "mon.palette_row"]
 MIN_NONTRIVIAL = {"quick": 5000, "thorough": 1000000}
 EXHAUSTIVE = {"quick": False, "thorough": True}
 
@@ -41,8 +41,9 @@ def check_color(ctx, color, api, pal, nontrivial_sig=None):
                    ColorSystem.WINDOWS):
         # bypass the lru_cache so that a poisoned cache cannot hide the function's answer, and also
         # call through it so that the cache cannot change the answer
-        raw = Color.downgrade.__wrapped__(color, system)
         out = color.downgrade(system)
+        uncached = getattr(Color.downgrade, "__wrapped__", None)
+        raw = uncached(color, system) if uncached is not None else out
         ctx.count("mon.downgrade")
         wit = {"color": repr(color), "triplet": color.triplet, "number": color.number,
                "system": system.name, "out": repr(out), "out_number": out.number}
@@ -87,8 +88,12 @@ def check_color(ctx, color, api, pal, nontrivial_sig=None):
         if system in (ColorSystem.STANDARD, ColorSystem.WINDOWS):
             if src_kind == "truecolor":
                 rgb = tuple(color.triplet)
-            elif src_kind == "eight_bit":
+            elif src_kind == "eight_bit" and color.number >= 16:
                 rgb = p256[color.number]
+            elif src_kind == "eight_bit":
+                # an EIGHT_BIT-typed colour below 16 is not produced by any parsing / from_ansi route (those give
+                # STANDARD); what the 16-colour conversions do with one is not asserted
+                rgb = None
             elif src_kind in ("standard", "windows") and color.number < 16:
                 # same 16 indices, other palette: the index is kept (documented for 8-bit < 16)
                 rgb = None
@@ -113,7 +118,7 @@ def check_color(ctx, color, api, pal, nontrivial_sig=None):
                   color.downgrade(ColorSystem.WINDOWS)):
             k = _kind(ColorType, c.type)
             want = palette_ref.sgr_params(k, c.number, tuple(c.triplet) if c.triplet else None, fg)
-            got = tuple(Color.get_ansi_codes.__wrapped__(c, fg))
+            got = tuple(getattr(Color.get_ansi_codes, "__wrapped__", Color.get_ansi_codes)(c, fg))
             got_cached = tuple(c.get_ansi_codes(foreground=fg))
             ctx.count("mon.ansi_codes")
             if got != want or got_cached != want:
@@ -239,13 +244,23 @@ def wl_random(ctx, rng, case_no):
         d = rng.randint(0, 30)
         g = max(0, min(255, r + rng.randint(-d, d)))
         b = max(0, min(255, r + rng.randint(-d, d)))
-    route = rng.randrange(3)
+    route = rng.randrange(4)
     if route == 0:
         c = _triplet_color(api, r, g, b)
     elif route == 1:
         c = Color.parse("#%02x%02x%02x" % (r, g, b))
-    else:
+    elif route == 2:
         c = Color.parse("rgb(%d,%d,%d)" % (r, g, b))
+    else:
+        # the public constructor: the name is whatever the program calls the colour (a theme role, a name another
+        # colour also has) - the value is the triplet / number
+        ColorType, ColorTriplet = api[2], api[3]
+        name = rng.choice(["accent", "accent", "warning", "red", "#000000", "color(1)", "default", ""])
+        if rng.random() < 0.8:
+            c = Color(name, ColorType.TRUECOLOR, triplet=ColorTriplet(r, g, b))
+        else:
+            c = Color(name, ColorType.EIGHT_BIT, number=16 + r % 240)
+        ctx.count("mon.constructor_route")
     ch = check_color(ctx, c, api, pal)
     ctx.case_done(("rgb", r, g, b), ch, {"rgb": (r, g, b), "route": route})
 
@@ -256,7 +271,7 @@ def wl_all_rgb(ctx):
     Color, ColorSystem, ColorType, ColorTriplet, _ = api
     std, win, p256 = _palettes(api)
     dist2, STD, EB, WIN = palette_ref.dist2, ColorSystem.STANDARD, ColorSystem.EIGHT_BIT, ColorSystem.WINDOWS
-    downgrade = Color.downgrade.__wrapped__
+    downgrade = getattr(Color.downgrade, "__wrapped__", Color.downgrade)
     n = 0
     import time
     for r in range(ctx.shard, 256, ctx.nshards):
